@@ -93,6 +93,13 @@ CLAIMED = {
          '(E[2cos2φ] = m cos2φ₀, E[2sin2φ] = m sin2φ₀), inverse_transform(_eps), az_sampling_law; oracles: ε of the real table, midpoint grids of u through the real rvs_phi '
          '(exact data flow, Stokes means, histogram) over IRF sets × DU × (E, P, φ₀) incl. integer/scalar degrees, model components with E/t dependence, simulate→PCUBE closure.',
          'Lean kernel + Mathlib; translator; partial: the FITPACK-inverted ppf table is measured (ε ≤ 2e-4, observed 4.6e-5), not proved; numpy.random uniformity; one fixed-seed 6.5σ closure.'),
+ 'C03': ('proof', 'Lean 4 theorems about the pointwise count-spectrum composition, GTI filtering and the vignetting acceptance set; FITPACK numerics are measured hypotheses',
+         'count_spectrum_pointwise/unabsorbed/z0 (spectrum at the source-frame energy, absorption and effective area at the observed energy), gti_filter_exact/sublist, '
+         'vignetting_keep_prob (Lebesgue measure of the surviving uniforms = min(1, max(0, v))), time_/energy_sampling_law; oracles: tabulated values vs independently evaluated factors, '
+         'norm vs Simpson quadrature, midpoint grids of u through the real time and energy samplers, seed-list data flow (Poisson mean, GTI filter), vignetting with fed uniforms, '
+         'row counts of simulated stationary and periodic sources.',
+         'Lean kernel + Mathlib; partial: FITPACK integration/inversion measured (norm 2e-4, ε_t ≤ 2e-3, ε_E ≤ 6e-3; observed 2.4e-4 / 1.3e-4); numpy.random.poisson/uniform contracts; '
+         'known finding: xBinarySource (truncated times, no GTI filter, wrong auxiliary variable).'),
 }
 NOT_YET = 'check not built yet in this round (work in progress; see DESIGN.md section 7 for the planned model and theorems)'
 
